@@ -472,6 +472,10 @@ theorem nonTailStep_emits {isFn : Nat → Bool} {e m : Expr} (st : NonTailStep e
     simp only [compile, bind_ok, pure_ok] at h
     obtain ⟨⟨code, t'⟩, gs1, h1, rfl⟩ := h
     exact ⟨k, gs, ((code, t'), gs1), h1, Seg.right _ (Seg.refl _)⟩
+  | assignLhs =>
+    simp only [compile, bind_ok, pure_ok] at h
+    obtain ⟨⟨a, ta⟩, gs1, h1, ⟨b, tb⟩, gs2, _, rfl⟩ := h
+    exact ⟨k, gs, ((a, ta), gs1), h1, Seg.right _ (Seg.right _ (Seg.refl _))⟩
   | assignRhs =>
     simp only [compile, bind_ok, pure_ok] at h
     obtain ⟨⟨a, ta⟩, gs1, _, ⟨b, tb⟩, gs2, h2, rfl⟩ := h
